@@ -59,6 +59,7 @@ Definition res_eqb (a b : res) : bool :=
   match a, b with
   | RCrash, RCrash => true
   | RNil, RNil => true
+  | RErr, RErr => true
   | RId x, RId y => bytes_eqb x y
   | _, _ => false
   end.
